@@ -18,27 +18,27 @@ COMMON_NOTE = (
 P = {
     "C01": dict(
         technique="static analysis: symbolic normal forms of window bounds over the clock state (provenance), exhaustive weak-ordering evaluation of comparison-only predicates, discarded-pure-result lint, dispatch/registry exhaustiveness, effect liveness",
-        text="Decides, for all paths and all inputs of the comparison-only predicates, the structural necessary conditions of C01: per-step event windows tile by provenance (R1), the SQL window is the half-open (lb, ub] predicate (R2), events are dispatched by scope_instance_id through an effective filter (R3), every scope/event/config has exactly one handling site (R4), delivery and retention conventions of both queues agree on every weak ordering (R5), handler effects are live (R6), payload slots agree (R7). It does NOT decide which step a boundary event lands in (binary rounding of three Julian dates) nor integrator root finding; level 'other' because the behavioural property is not proved.",
+        text="Decides, for all paths and all inputs of the comparison-only predicates, the structural necessary conditions of C01: per-step event windows tile by provenance (R1), the SQL window is the half-open (lb, ub] predicate (R2), events are dispatched by scope_instance_id through an effective filter (R3), every scope/event/config has exactly one handling site (R4), delivery and retention conventions of both queues agree on every weak ordering (R5), handler effects are live (R6), payload slots agree (R7). It does NOT decide which step a boundary event lands in (binary rounding of three Julian dates) nor integrator root finding; level 'other' because the behavioural property is not proved. Later additions: the effect chain of delivered events including events that are due when the integrator stops for another one (R8), and ownership of the two event queues - created per agent, grown only by their append method, shrunk only by their prune method (R9).",
         ref="DESIGN.md section 4, C01",
     ),
     "C05": dict(
         technique="static analysis: dataflow of the float seconds component through rounding / truncation operators, exact rational folding of unit constants, provenance of the step-count quotient",
-        text="Decides the structural necessary conditions of C05: the float seconds of a Julian date are rounded (never truncated) before reaching a datetime and carry through timedelta (R1); the timed-run target date is julianDateToDatetime(start)+delta with calendar fields in order (R2); every seconds<->days constant folds to exactly 86400 or 1/86400 and the two scenario-time directions are exact reciprocals (R3); the step count is floor(round(delta)/physics step) with one stepForward per iteration and a common `+ dt_step` accumulation (R4). Does NOT decide monotonicity or sub-millisecond exactness of the calendar algorithm over 1901-2099 (float arithmetic).",
+        text="Decides the structural necessary conditions of C05: the float seconds of a Julian date are rounded (never truncated) before reaching a datetime and carry through timedelta (R1); the timed-run target date is julianDateToDatetime(start)+delta with calendar fields in order (R2); every seconds<->days constant folds to exactly 86400 or 1/86400 and the two scenario-time directions are exact reciprocals (R3); the step count is floor(round(delta)/physics step) with one stepForward per iteration and a common `+ dt_step` accumulation (R4). Does NOT decide monotonicity or sub-millisecond exactness of the calendar algorithm over 1901-2099 (float arithmetic). Later additions: no expression mixes quantities derived from two generations of the corrected year, the calendar algorithms agree with the cited ones, and the leap-year test is tabulated over 1901-2099 (R5).",
         ref="DESIGN.md section 4, C05",
     ),
     "C08": dict(
         technique="static analysis: interprocedural effect summaries (rebind / keyed store / accumulate / delete) of every Registration.processResults closure, key-provenance of keyed stores, CFG dominance of per-step resets over enqueue sites, slot agreement along the pointing payload chain",
-        text="Decides the structural necessary conditions of C08 for every schedule at once: merges into a registrant shared by the jobs of a batch are commutative (in-place accumulation, job-disjoint keyed stores, no rebind) (R1); every results-derived element is accumulated exactly once (R2); per-step buffers are reset at assess entry before the first enqueue and saved buffers are drained by their accessors (R3); every pointing update is applied to its sensor and every observation routed to its own target's update job, with payload slots preserved from sensor to agent (R4). Does NOT decide numerical identity across schedules (float reduction order, unseeded worker noise).",
+        text="Decides the structural necessary conditions of C08 for every schedule at once: merges into a registrant shared by the jobs of a batch are commutative (in-place accumulation, job-disjoint keyed stores, no rebind) (R1); every results-derived element is accumulated exactly once (R2); per-step buffers are reset at assess entry before the first enqueue and saved buffers are drained by their accessors (R3); every pointing update is applied to its sensor and every observation routed to its own target's update job, with payload slots preserved from sensor to agent (R4). Does NOT decide numerical identity across schedules (float reduction order, unseeded worker noise). Later additions: each job result reaches its own registration exactly once (R5); a grouping helper used for routing must keep every observation (itertools.groupby only over input sorted by the same key) (R4).",
         ref="DESIGN.md section 4, C08",
     ),
     "C11": dict(
         technique="static analysis: provenance of the ground dynamics' time base (shared rounding-discipline rule), instant-consistency of the capture expression, confinement of Terrestrial.propagate's return expression",
-        text="Decides the structural necessary conditions of C11: the ground dynamics' start datetime is the scenario start instant exactly (the JD->datetime conversion must round) (R1); the configured state is captured Earth-fixed at one instant, the clock's start (R2); Terrestrial.propagate depends only on the captured Earth-fixed state and start + elapsed seconds (R3); geodetic configuration slots and degree conversion (R4). Does NOT decide the metre-level accuracy of the reduction nor the inertial velocity values.",
+        text="Decides the structural necessary conditions of C11: the ground dynamics' start datetime is the scenario start instant exactly (the JD->datetime conversion must round) (R1); the configured state is captured Earth-fixed at one instant, the clock's start (R2); Terrestrial.propagate depends only on the captured Earth-fixed state and start + elapsed seconds (R3); geodetic configuration slots and degree conversion (R4). Does NOT decide the metre-level accuracy of the reduction nor the inertial velocity values. Later additions: alternative constructors of the ground dynamics are inlined before the capture-instant comparison (R2); the calendar inversion used for the start date is a shared instance of C05.R5 (R5).",
         ref="DESIGN.md section 4, C11",
     ),
     "C02": dict(
         technique="static analysis: CFG must-pass-through / control-dependence of every observation and miss on its constraint atoms, comparator-polarity table over semantic operand kinds, path counting of primary records",
-        text="Decides the structural necessary conditions of C02 on every path of the observation pipeline: reported and predicted observations are dominated by the passing slew, field-of-view and visibility checks (R1); each sensor class' isVisible passes every constraint atom of that class before `return True` (R2); each miss reason is control-dependent on its own constraint failing (R3); guards compare the documented operands with the documented operator (R4); exactly one record of the tasked target per path (R5); background targets exclude the primary, share the pointing and are slew-gated (R6); the measurement is taken from the tested geometry and noise is drawn only when requested (R7). Does NOT decide that each predicate equals the exact geometry, nor the noise magnitude.",
+        text="Decides the structural necessary conditions of C02 on every path of the observation pipeline: reported and predicted observations are dominated by the passing slew, field-of-view and visibility checks (R1); each sensor class' isVisible passes every constraint atom of that class before `return True` (R2); each miss reason is control-dependent on its own constraint failing (R3); guards compare the documented operands with the documented operator (R4); exactly one record of the tasked target per path (R5); background targets exclude the primary, share the pointing and are slew-gated (R6); the measurement is taken from the tested geometry and noise is drawn only when requested (R7). Does NOT decide that each predicate equals the exact geometry, nor the noise magnitude. Later additions: operands of every optical helper call compared in fully inlined form (R4), the field-of-view rules of C14 shared as R8 / R9, and the configured order of the mask limits preserved from configuration to sensor (R10).",
         ref="DESIGN.md section 4, C02",
     ),
     "C04": dict(
@@ -48,52 +48,52 @@ P = {
     ),
     "C06": dict(
         technique="static analysis: path-sensitive generation typestate over self-fields with inlined self-method calls; normal-form comparison with the documented unscented-transform formulas",
-        text="Decides the structural necessary conditions of C06 on every path of predict/forecast/update for both resampling modes: state and measurement residuals paired in the cross covariance come from one sigma-point generation and the prediction/forecast products are the documented formulas (R1); the no-observation path returns the propagated mean and covariance untouched (R2); all stacked quantities iterate the same observation sequence in order and the update is x = pred_x + K nu (R3); unscented weights and sigma-point construction follow the documented formulas (R4). Does NOT decide equality with the Kalman filter as numbers, PSD-ness, or weight sums.",
+        text="Decides the structural necessary conditions of C06 on every path of predict/forecast/update for both resampling modes: state and measurement residuals paired in the cross covariance come from one sigma-point generation and the prediction/forecast products are the documented formulas (R1); the no-observation path returns the propagated mean and covariance untouched (R2); all stacked quantities iterate the same observation sequence in order and the update is x = pred_x + K nu (R3); unscented weights and sigma-point construction follow the documented formulas (R4). Does NOT decide equality with the Kalman filter as numbers, PSD-ness, or weight sums. Later additions: the state a prediction writes is carried through the result-application path (R5); every producer of the covariance square root yields the lower Cholesky (or a symmetric) factor, which is what the column-wise sigma-point spread needs (R6).",
         ref="DESIGN.md section 4, C06",
     ),
     "C14": dict(
         technique="static analysis: angle-kind dataflow (wrap discipline), exhaustive weak-ordering evaluation of the mask predicates against an independent circular-interval specification, comparator-polarity and operand checks of helpers",
-        text="Decides the structural necessary conditions of C14: azimuth differences are wrapped to (-pi, pi] before use (R1); the azimuth-mask accept condition equals the circular-interval specification and the elevation mask equals e0 <= el <= e1 on every weak ordering of their symbols - an exhaustive finite case split valid for all inputs (R2); polarity and operands of lineOfSight and the lighting / limb / exclusion helpers (R3); conic and rectangular field-of-view tests are functions of the angular offsets with the documented widths (R4). Does NOT decide geometric exactness as values or the Sun-fraction range.",
+        text="Decides the structural necessary conditions of C14: azimuth differences are wrapped to (-pi, pi] before use (R1); the azimuth-mask accept condition equals the circular-interval specification and the elevation mask equals e0 <= el <= e1 on every weak ordering of their symbols - an exhaustive finite case split valid for all inputs (R2); polarity and operands of lineOfSight and the lighting / limb / exclusion helpers (R3); conic and rectangular field-of-view tests are functions of the angular offsets with the documented widths (R4). Does NOT decide geometric exactness as values or the Sun-fraction range. Later additions: hand-written wraps must be two-sided (R1); mask limits keep their configured order from configuration to sensor (R6).",
         ref="DESIGN.md section 4, C14",
     ),
     "C19": dict(
         technique="static analysis: override exhaustiveness from the session-writing closure, who-may-call, propositional implication of the raise condition, remote-handle typing (ray.put provenance) with attribute resolution",
-        text="Decides the structural necessary conditions of C19: every public mutating method of the data interface is overridden by a raise in the importer, private writers are unreachable from run-path modules and run paths use only the non-committing getData (R1); the condition of the MissingEphemerisError raise is implied by 'registered minus retrieved is non-empty' for every value of the other atoms (R2); records are imported into the registrant of their own id, which is then removed (R3); imported observations flow to saveObservations and every attribute read on a ray.get value resolves in the class its handle was put with (R4). Does NOT decide the contents of arbitrary importer files.",
+        text="Decides the structural necessary conditions of C19: every public mutating method of the data interface is overridden by a raise in the importer, private writers are unreachable from run-path modules and run paths use only the non-committing getData (R1); the condition of the MissingEphemerisError raise is implied by 'registered minus retrieved is non-empty' for every value of the other atoms (R2); records are imported into the registrant of their own id, which is then removed (R3); imported observations flow to saveObservations and every attribute read on a ray.get value resolves in the class its handle was put with (R4). Does NOT decide the contents of arbitrary importer files. Later additions: the duplicate key of imported observations contains the target and the sensor (R4); every agent is dispatched on its own realtime flag (R3).",
         ref="DESIGN.md section 4, C19",
     ),
     "C03": dict(
         technique="static analysis: slice arithmetic of the strided (6, K) batch layout in both derivative siblings, dataflow confinement of the elapsed time to the absolute epoch, normal-form agreement of the two-body acceleration and the f/g closed form",
-        text="Deliberately narrow: decides that both derivative implementations and the restart loop use one strided (6, K) layout (R1), that the perturbed derivative depends on time only through init_julian_date + t/86400 (R2), and that the two-body acceleration and the universal Kepler f/g closed form with its consistency guard are the documented expressions (R3). Does NOT decide split/restart equality within tolerance, Kepler exactness or conservation - integrator numerics, which no static argument in reach bounds.",
+        text="Deliberately narrow: decides that both derivative implementations and the restart loop use one strided (6, K) layout (R1), that the perturbed derivative depends on time only through init_julian_date + t/86400 (R2), and that the two-body acceleration and the universal Kepler f/g closed form with its consistency guard are the documented expressions (R3). Does NOT decide split/restart equality within tolerance, Kepler exactness or conservation - integrator numerics, which no static argument in reach bounds. Later additions: the Stumpff functions are checked branch by branch - closed forms by normal form, any polynomial branch by exact rational coefficients against the series (R3).",
         ref="DESIGN.md section 4, C03",
     ),
     "C07": dict(
         technique="static analysis: closure of the public decision path (override / who-may-call / writer enumeration), dependence of the optimiser input on the mask, registry totality and injectivity, store-shape checks, normal-form agreement of the reward formulas",
-        text="Decides the structural necessary conditions of C07: the only public decision path ends in `& visibility_matrix`, nothing overrides or bypasses it, the engine stores the result unmodified and visibility is set only by successful predicted observations - so a sensor is only ever tasked to a target it can see, for all matrices (R1); whether the assignment optimiser sees the mask (R2, known finding K4); label registries total and injective (R3); store shapes and optimiser arguments of the four policies (R4); documented reward combination and per-metric normalisation (R5). Does NOT decide optimality of the assignment, argmax correctness, equivariance or metric values.",
+        text="Decides the structural necessary conditions of C07: the only public decision path ends in `& visibility_matrix`, nothing overrides or bypasses it, the engine stores the result unmodified and visibility is set only by successful predicted observations - so a sensor is only ever tasked to a target it can see, for all matrices (R1); whether the assignment optimiser sees the mask (R2, known finding K4); label registries total and injective (R3); store shapes and optimiser arguments of the four policies (R4); documented reward combination and per-metric normalisation (R5). Does NOT decide optimality of the assignment, argmax correctness, equivariance or metric values. Later additions: reward formulas are compared after inlining small pure helpers; the normalisation may not hang on a guard over all metrics at once (R5).",
         ref="DESIGN.md section 4, C07",
     ),
     "C09": dict(
         technique="static analysis: provenance of every epoch key, single-transaction / who-may-write enumeration, AST typestate of the session scope, drain-accessor shapes, epoch-coverage obligation over stepForward / saveDatabaseOutput, column-slot agreement from column names",
-        text="Decides the structural necessary conditions of C09: every row built on a run path is keyed by a canonical epoch source (R1); one list and one final bulkSave per step, closed set of database writers (R2); session scope commits only after a clean yield, rolls back and re-raises otherwise, always closes (R3); one ephemeris per agent per output and drained buffers (R4); agent rows are ensured before events referencing them (R5); the epoch of every step whose rows are buffered is ensured before the bulk save (R6); Julian date / timestamp pairing of Epoch rows (R7); the 6 state and 36 covariance columns are written and read back at the index their name encodes (R8). Does NOT decide numeric values read back or row counts over all step / output-step combinations.",
+        text="Decides the structural necessary conditions of C09: every row built on a run path is keyed by a canonical epoch source (R1); one list and one final bulkSave per step, closed set of database writers (R2); session scope commits only after a clean yield, rolls back and re-raises otherwise, always closes (R3); one ephemeris per agent per output and drained buffers (R4); agent rows are ensured before events referencing them (R5); the epoch of every step whose rows are buffered is ensured before the bulk save (R6); Julian date / timestamp pairing of Epoch rows (R7); the 6 state and 36 covariance columns are written and read back at the index their name encodes (R8). Does NOT decide numeric values read back or row counts over all step / output-step combinations. Later additions: snapshot result fields replace driver buffers (R9); the Julian date recorded for a pending epoch is the clock's own value, the float the rows carry as foreign key (R6).",
         ref="DESIGN.md section 4, C09",
     ),
     "C10": dict(
         technique="static analysis: non-interference by writer enumeration of truth fields, interprocedural effect summaries of the step closure with Ray put/get as a copy boundary, aliasing and configuration-flow checks, CFG dominance of the propagation join",
-        text="Decides the non-interference conditions behind C10: a closed set of writers of truth state and of callers of the truth setters (R1); the step's closure after the propagation join writes nothing of a driver agent but sensor pointing and the time-bias queue, estimation / tasking / sensor code never calls a truth writer (R2); propagation jobs are built from and merged into their own agent only (R3); no dynamics object is shared between agents (R4); only propagation / geopotential / perturbation / time settings reach truth dynamics and the estimate's settings are a deep copy (R5); propagation is unconditional and precedes estimation / tasking (R6); output and call splitting keep no state (R7). Does NOT decide bit-for-bit determinism of SciPy and Ray.",
+        text="Decides the non-interference conditions behind C10: a closed set of writers of truth state and of callers of the truth setters (R1); the step's closure after the propagation join writes nothing of a driver agent but sensor pointing and the time-bias queue, estimation / tasking / sensor code never calls a truth writer (R2); propagation jobs are built from and merged into their own agent only (R3); no dynamics object is shared between agents (R4); only propagation / geopotential / perturbation / time settings reach truth dynamics and the estimate's settings are a deep copy (R5); propagation is unconditional and precedes estimation / tasking (R6); output and call splitting keep no state (R7). Does NOT decide bit-for-bit determinism of SciPy and Ray. Later additions: the estimate's propagation settings are an isolating copy of the scenario's (deep copy, or a shallow copy when only top-level fields are rebound; pydantic model_validate of an instance is an alias) (R5).",
         ref="DESIGN.md section 4, C10",
     ),
     "C12": dict(
         technique="static analysis: path-condition case tables of the four sibling case splits, unit-conversion counting at the configuration boundary, decorator / closed-form checks of the anomaly conversions",
-        text="Narrow: decides that eci2coe, singularityCheck, ClassicalElements.fromConfig and COEStateConfig.validate_elements agree on the (inclined, eccentric) case partition, on which slots are zero and on the slot of each singular case's defining angle (R1); that angular configuration fields are converted to radians exactly once (R2); that every anomaly conversion is range-wrapped, guards the circular case and has its documented closed form (R3). Does NOT decide any round trip as numbers.",
+        text="Narrow: decides that eci2coe, singularityCheck, ClassicalElements.fromConfig and COEStateConfig.validate_elements agree on the (inclined, eccentric) case partition, on which slots are zero and on the slot of each singular case's defining angle (R1); that angular configuration fields are converted to radians exactly once (R2); that every anomaly conversion is range-wrapped, guards the circular case and has its documented closed form (R3). Does NOT decide any round trip as numbers. Later additions: every configuration field is consumed by the element constructor (R2); every arc-cosine of a normalised dot product in the element code is domain-safe (R4).",
         ref="DESIGN.md section 4, C12",
     ),
     "C13": dict(
         technique="static analysis: def-use / switch coverage of perturbation terms, frame-kind and slot checks of the helper calls, normal-form agreement of each perturbation formula with its cited reference",
-        text="Decides the structural necessary conditions of C13: each perturbation is defined under its own switch and summed once with the point-mass term, configuration fields map one-to-one onto switches (R1); the geopotential is evaluated on R^T r and rotated back, helper slots and the Sun position are consistent, one epoch (R2); degree / order slots, loop ranges, unit conversions (R3); third-body, SRP, relativistic, Cunningham recursion and acceleration partials equal their cited reference expressions as normal forms (R4). Does NOT decide the value of any formula, the Chebyshev ephemerides or continuity of Sun / Moon positions.",
+        text="Decides the structural necessary conditions of C13: each perturbation is defined under its own switch and summed once with the point-mass term, configuration fields map one-to-one onto switches (R1); the geopotential is evaluated on R^T r and rotated back, helper slots and the Sun position are consistent, one epoch (R2); degree / order slots, loop ranges, unit conversions (R3); third-body, SRP, relativistic, Cunningham recursion and acceleration partials equal their cited reference expressions as normal forms (R4). Does NOT decide the value of any formula, the Chebyshev ephemerides or continuity of Sun / Moon positions. Later additions: the third-body set is created afresh per object and no force-model function fills in a mutable default argument (R1).",
         ref="DESIGN.md section 4, C13",
     ),
     "C15": dict(
         technique="static analysis: taint of the burn end time through the integrator event function, weak-ordering evaluation of the re-arm / retention predicates, sibling agreement of the orbital derivatives on applying the armed thrust",
-        text="Decides the structural necessary conditions of C15: whether the burn's end time can produce a sign change or an integration bound (R1, known finding K2: it cannot unless step-aligned); re-arm iff start < t0 < end, retention while now < end, callback / restart loop / registries / payload slots (R2); every orbital derivative applies the armed thrust (R3, defect fixed for two-body). Does NOT decide the delivered delta-v.",
+        text="Decides the structural necessary conditions of C15: whether the burn's end time can produce a sign change or an integration bound (R1, known finding K2: it cannot unless step-aligned); re-arm iff start < t0 < end, retention while now < end, callback / restart loop / registries / payload slots (R2); every orbital derivative applies the armed thrust (R3, defect fixed for two-body). Does NOT decide the delivered delta-v. Later additions: the restart increment after an event is at least the absolute zero-zone tolerance of the event functions (R4).",
         ref="DESIGN.md section 4, C15",
     ),
     "C16": dict(
@@ -103,17 +103,17 @@ P = {
     ),
     "C17": dict(
         technique="static analysis: protocol agreement over all detector classes (CFG must-pass-through of the metric store), normal-form agreement of the three statistics, polarity of the chi-square test, control dependence of the flags",
-        text="Decides the structural necessary conditions of C17: every detector stores the statistic it tests and returns `not test(metric, threshold, dof)` (R1); the three statistics and their degrees of freedom are the documented expressions, windows are paired deques of the configured length, the fading recursion advances before it is read (R2); the chi-square test is the strict upper-tail comparison and the quadratic form r^T P^-1 r (R3); flags are raised iff the detector fired (R4). Does NOT decide chi-square values or monotonicity as numbers.",
+        text="Decides the structural necessary conditions of C17: every detector stores the statistic it tests and returns `not test(metric, threshold, dof)` (R1); the three statistics and their degrees of freedom are the documented expressions, windows are paired deques of the configured length, the fading recursion advances before it is read (R2); the chi-square test is the strict upper-tail comparison and the quadratic form r^T P^-1 r (R3); flags are raised iff the detector fired (R4). Does NOT decide chi-square values or monotonicity as numbers. Later additions: rules are independent of local spellings; a running degrees-of-freedom total is accepted only when the oldest dimension is subtracted before the bounded window evicts it (R2).",
         ref="DESIGN.md section 4, C17",
     ),
     "C18": dict(
         technique="static analysis: path-sensitive normalised / raw typestate of the model weights with inlined self / super calls and a tracked truthiness atom, dominance of model removal by its guard, parallel-array pairing, normal-form agreement of the mixture formulas",
-        text="Decides the structural necessary conditions of C18: every public exit of update / prune / initialize and every mixture read sees weights assigned a normalising form, and the zero-mass reset precedes the division (R1, R2); model removal is guarded by `more than one model`, shrinks all parallel arrays with the same index, back to front (R3); the mixture mean is refreshed before the covariance, and mean / covariance / likelihood / Bayes step / handed-back filter are the documented expressions (R4). Does NOT decide Bayes-rule values, underflow beyond the reset, or PSD-ness.",
+        text="Decides the structural necessary conditions of C18: every public exit of update / prune / initialize and every mixture read sees weights assigned a normalising form, and the zero-mass reset precedes the division (R1, R2); model removal is guarded by `more than one model`, shrinks all parallel arrays with the same index, back to front (R3); the mixture mean is refreshed before the covariance, and mean / covariance / likelihood / Bayes step / handed-back filter are the documented expressions (R4). Does NOT decide Bayes-rule values, underflow beyond the reset, or PSD-ness. Later additions: closure hands back the surviving model - the mixture is recompiled before the hand-over, nothing changes it afterwards, and the pruning filter reaches it with one model left (R5).",
         ref="DESIGN.md section 4, C18",
     ),
     "C20": dict(
         technique="static analysis: inverse-chain and slot-kind check of the radar-observation inversion, vector-shape (3 vs 6 elements) discipline of the IOD pipeline, slot / epoch agreement of the Lambert call and f-g velocity reconstruction",
-        text="Narrow: decides that radarObs2eciPosition is the reversed inverse chain of the measurement model with each observed quantity in the slot of its kind (R1); that no certainly-3-element position reaches an unguarded velocity slice in the IOD pipeline (R2, defect fixed); that the pipeline hands the solver (r1, r2, t2 - t1, sense) of exactly the two observations used and returns (r2, v2), with the documented f-g velocity reconstruction (R3). Does NOT decide both Lambert iterations nor the accuracy of the IOD result (boundary-value numerics) - the larger part of the property; an honest partial claim.",
+        text="Narrow: decides that radarObs2eciPosition is the reversed inverse chain of the measurement model with each observed quantity in the slot of its kind (R1); that no certainly-3-element position reaches an unguarded velocity slice in the IOD pipeline (R2, defect fixed); that the pipeline hands the solver (r1, r2, t2 - t1, sense) of exactly the two observations used and returns (r2, v2), with the documented f-g velocity reconstruction (R3). Does NOT decide both Lambert iterations nor the accuracy of the IOD result (boundary-value numerics) - the larger part of the property; an honest partial claim. Later additions: sense / quadrant corrections in the Lambert solvers precede every use of the corrected quantity (R4).",
         ref="DESIGN.md section 4, C20",
     ),
 }
